@@ -86,7 +86,7 @@ def static_part(pid, rep, S, components, cov):
         if r.get("model_mismatch") and any(c in components for c in r.get("mismatch_kinds", ["verdict", "sig", "items"])):
             why.append("model and implementation differ (%s)" % ",".join(r.get("mismatch_kinds", ["?"])))
         for p in r["problems"]:
-            if ("unparsed" in p or "never assigned" in p) and "items" in components:
+            if ("unparsed" in p or "never assigned" in p or p.startswith("harness:")) and "items" in components:
                 why.append(p)
             if p.startswith("surface:") and "surface" in components:
                 why.append(p)
